@@ -50,6 +50,7 @@ def run(prog, R, tier="quick", only_rule=None):
     c06e(prog, R, L)
     c06f(prog, R, L)
     c06g(prog, R, L)
+    c06h(prog, R, L)
 
 
 def held_classes(L, f, bb, must=True):
@@ -412,3 +413,43 @@ def c06g(prog, R, L):
               "flush/merge", f.where(c.bb))
     r.ok("long-io census|%d call site(s) may reach table writing" % (n_sites // 5 * 5), "", nontrivial=False)
     r.floor(7)
+
+
+READER_METHODS = ("get", "contains_key", "size_of", "range", "prefix", "iter", "len", "is_empty", "first_key_value",
+                  "last_key_value", "multi_get", "get_internal_entry")
+
+
+def c06h(prog, R, L, rid="C06.h"):
+    """A read operation takes the version-history lock once: everything it looks at (memtables, tables, the blob files its
+    pointers resolve against) comes from that one SuperVersion.  A second acquisition on the same path can observe a
+    later version - a compaction that committed in between - and mixes two views."""
+    r = R.rule(rid, "a read operation takes one snapshot of the version history (no second acquisition on a path)", "L")
+    roots = []
+    for p in prog.fns:
+        if p.startswith(("abstract_tree::AbstractTree::", "<tree::Tree as abstract_tree::AbstractTree>::",
+                         "<blob_tree::BlobTree as abstract_tree::AbstractTree>::", "<any_tree::AnyTree as abstract_tree::AbstractTree>::")) \
+                and p.split("::")[-1] in READER_METHODS:
+            roots.append(p)
+    if len(roots) < 15:
+        r.anchor_missing("reader methods of AbstractTree (found %d, confirmed 23)" % len(roots))
+        return
+    reach, _ = prog.reachable_fns(roots)
+    n = 0
+    for p in sorted(reach):
+        f = prog.fns.get(p)
+        if f is None:
+            continue
+        sites = [c for c in f.calls if "VH" in L.call_may_acquire(c)]
+        if not sites:
+            continue
+        n += 1
+        twice = [(a, b) for a in sites for b in sites if a is not b and b.bb in f.reach_after(a.bb)]
+        r.check(not twice, "%s|at most one version-history acquisition per path" % p,
+                "a read takes the version-history lock twice on one path (%s then %s): the second view can be newer than the "
+                "first, e.g. a value pointer read from one version is resolved against another" %
+                ((short(twice[0][0].sres), short(twice[0][1].sres)) if twice else ("", "")), f.where(twice[0][1].bb if twice else None),
+                "%d site(s)" % len(sites))
+    r.floor(28)
+    # the blob read path resolves against the SuperVersion it read (shared with C02.d / C08.b)
+    from rules.props import c02
+    c02.c02d(prog, R, rid="C06.i")
